@@ -174,6 +174,7 @@ class MuEngine(Engine):
         wcn = rec.wc.name
         cell = Ptr(rec.instance.base, rec.instance.path + (('f', self.QUEUE_FIELDS[wcn], 1),))
         rec.queue = st.mem.get(cell, None)
+        rec.queue_nonempty = isinstance(rec.queue, Ptr) and self.nonnull(st, rec.queue)
         rec.S_other = {k: v for k, v in st.S.items()}
         rec.flags = {k: v for k, v in st.ghost.items() if isinstance(k, tuple) and k and k[0] == 'flag'}
         if rec.new_spin != rec.spin:
@@ -235,6 +236,12 @@ class MuEngine(Engine):
                 and p.base.startswith(self.PRIVATE_BASES):
             st.ghost[('flag', 'slept', f.fn.name)] = 1
         return TOP
+
+    def on_store(self, st, f, inst, p, v):
+        # C04.R1: the thread stores a pointer to (the link of) its own waiter record as the head of a cv queue: it is now queued on that cv
+        if isinstance(p, Ptr) and p.path and p.path[-1][0] == 'f' and p.path[-1][1] == self.QUEUE_FIELDS['cv'] and isinstance(v, Ptr) \
+                and v.base.startswith(('waiter:', 'arg:nw', 'arg:w')):
+            st.ghost[('flag', 'cv_enq')] = 1
 
     def on_call(self, st, inst, callee, args):
         if callee == 'nsync_mu_semaphore_v':
